@@ -60,6 +60,45 @@ type Path struct {
 	unknownBranches int
 	Checks          int
 	decided         map[[2]uint64]bool // conditions already fixed on this path
+	ufs             map[string][]*ufApp
+}
+
+// ufApp is one application of an uninterpreted function, Ackermannized: the
+// result is a fresh variable and congruence with every earlier application of
+// the same function is asserted explicitly (keeps the queries in pure QF_BV,
+// which all three solvers decide quickly; UF+BV combination stalls z3 4.8).
+type ufApp struct {
+	args []*smt.Term
+	res  *smt.Term
+	key  string
+}
+
+func (p *Path) ufApply(name string, w int, args ...*smt.Term) *smt.Term {
+	if p.ufs == nil {
+		p.ufs = map[string][]*ufApp{}
+	}
+	key := ""
+	for _, a := range args {
+		k := a.Key()
+		key += fmt.Sprintf("%x.%x,", k[0], k[1])
+	}
+	for _, a := range p.ufs[name] {
+		if a.key == key {
+			return a.res
+		}
+	}
+	res := smt.Var(fmt.Sprintf("%s!%d", name, len(p.ufs[name])), smt.BV(w))
+	p.ref(res)
+	app := &ufApp{args: args, res: res, key: key}
+	for _, o := range p.ufs[name] {
+		same := smt.True
+		for i := range args {
+			same = smt.And(same, smt.Eq(args[i], o.args[i]))
+		}
+		p.assert(smt.Implies(same, smt.Eq(res, o.res)))
+	}
+	p.ufs[name] = append(p.ufs[name], app)
+	return res
 }
 
 func newPath(s *smt.Solver, prefix []int, known []KnownClass) *Path {
@@ -125,17 +164,23 @@ func (p *Path) modelWith(ts ...*smt.Term) (smt.Result, map[string]uint64, map[st
 	}
 	// make sure UF applications are named before the push
 	type ufq struct {
-		app  *smt.Term
+		name string
 		ref  string
 		args []string
 	}
 	var ufs []ufq
-	for _, a := range p.ufApps {
-		q := ufq{app: a, ref: p.ref(a)}
-		for _, x := range a.Args {
-			q.args = append(q.args, p.ref(x))
+	for name, apps := range p.ufs {
+		for _, a := range apps {
+			q := ufq{name: name, ref: p.ref(a.res)}
+			for _, x := range a.args {
+				if x.IsConst() {
+					q.args = append(q.args, fmt.Sprintf("=%d", x.C))
+				} else {
+					q.args = append(q.args, p.ref(x))
+				}
+			}
+			ufs = append(ufs, q)
 		}
-		ufs = append(ufs, q)
 	}
 	p.S.Send("(push 1)\n")
 	for _, r := range refs {
@@ -154,7 +199,11 @@ func (p *Path) modelWith(ts ...*smt.Term) (smt.Result, map[string]uint64, map[st
 		}
 		for _, q := range ufs {
 			qrefs = append(qrefs, q.ref)
-			qrefs = append(qrefs, q.args...)
+			for _, a := range q.args {
+				if a[0] != '=' {
+					qrefs = append(qrefs, a)
+				}
+			}
 		}
 		qrefs = dedup(qrefs)
 		vals, err := p.S.GetValues(qrefs)
@@ -167,12 +216,16 @@ func (p *Path) modelWith(ts ...*smt.Term) (smt.Result, map[string]uint64, map[st
 			for _, q := range ufs {
 				var key []string
 				for _, a := range q.args {
-					key = append(key, fmt.Sprint(vals[a]))
+					if a[0] == '=' {
+						key = append(key, a[1:])
+					} else {
+						key = append(key, fmt.Sprint(vals[a]))
+					}
 				}
-				if uf[q.app.Name] == nil {
-					uf[q.app.Name] = map[string]uint64{}
+				if uf[q.name] == nil {
+					uf[q.name] = map[string]uint64{}
 				}
-				uf[q.app.Name][strings.Join(key, ",")] = vals[q.ref]
+				uf[q.name][strings.Join(key, ",")] = vals[q.ref]
 			}
 		} else {
 			res = smt.Unknown
@@ -284,11 +337,9 @@ func (p *Path) checkAssert(label string, c *smt.Term) {
 	switch res {
 	case smt.Unsat:
 		p.event(Event{Kind: EvDischarged, Label: label})
-		p.assert(c)
 		return
 	case smt.Unknown:
 		p.event(Event{Kind: EvUnknown, Label: label, Detail: p.S.LastErr})
-		p.assert(c)
 		return
 	}
 	// sat: look past known-finding classes
